@@ -14,54 +14,11 @@
 (* EmitJson prints every generated (x, F) pair for replay into the real    *)
 (* parsers (binding B of C03).                                             *)
 (***************************************************************************)
-EXTENDS StreamParser, SmlEncode, TLC, Json
+EXTENDS StreamParser, SmlEncode, SmlFiles, TLC, Json
 
 CONSTANTS EmitJson, MutateAll
 
-\* ---- the family of abstract files ------------------------------------------
-T1 == <<0, 1, 226, 64>>
-T2 == <<128, 0, 0, 1>>
-Close(sig) == <<2, sig>>
-Msg(tid, g, a, body) == <<tid, g, a, body>>
-E(name, st, tm, unit, sc, val, sig) == <<name, st, tm, unit, sc, val, sig>>
-
-Entries == <<
-  E(<<1, 0, 1, 8, 0, 255>>, <<<<8, <<130>>>>>>, <<T1>>, <<30>>, <<-1>>, <<0, 1>>, <<<<9, 9>>>>),
-  E(<<>>, <<<<16, <<1, 130>>>>>>, <<>>, <<>>, <<>>, <<1, <<72, 76, 89>>>>, <<>>),
-  E(<<1>>, <<<<32, <<0, 1, 2, 3>>>>>>, <<>>, <<255>>, <<127>>, <<2, 8, <<128>>>>, <<>>),
-  E(<<2>>, <<<<64, <<0, 0, 0, 0, 0, 1, 2, 3>>>>>>, <<>>, <<>>, <<-128>>, <<2, 64, <<255, 255, 255, 255, 255, 255, 255, 1>>>>, <<>>),
-  E(<<3>>, <<>>, <<T2>>, <<>>, <<>>, <<3, 16, <<255, 254>>>>, <<>>),
-  E(<<4>>, <<>>, <<>>, <<>>, <<0>>, <<4, T1>>, <<<<>>>>),
-  E(<<5>>, <<>>, <<>>, <<>>, <<>>, <<2, 32, <<0, 0, 128, 0>>>>, <<>>),
-  E(<<6>>, <<>>, <<>>, <<>>, <<>>, <<3, 64, <<1, 2, 3, 4, 5, 6, 7, 8>>>>, <<>>),
-  E(<<7>>, <<>>, <<>>, <<>>, <<>>, <<0, 0>>, <<>>),
-  E(<<8>>, <<>>, <<>>, <<>>, <<>>, <<2, 16, <<255, 127>>>>, <<>>),
-  E(<<9>>, <<>>, <<>>, <<>>, <<>>, <<3, 32, <<0, 255, 0, 1>>>>, <<>>),
-  E(<<10>>, <<>>, <<>>, <<>>, <<>>, <<1, <<>>>>, <<>>),
-  E(<<11>>, <<>>, <<>>, <<>>, <<>>, <<3, 8, <<0>>>>, <<>>),
-  E(<<12>>, <<>>, <<>>, <<>>, <<>>, <<2, 32, <<255, 255, 0, 0>>>>, <<>>),
-  E(<<13>>, <<>>, <<>>, <<>>, <<>>, <<2, 64, <<0, 0, 0, 0, 128, 0, 0, 0>>>>, <<>>),
-  E(<<14>>, <<>>, <<>>, <<>>, <<>>, <<1, <<1, 2, 3, 4, 5, 6, 7, 8, 9, 10, 11, 12, 13, 14, 15, 16>>>>, <<>>),
-  E(<<15>>, <<>>, <<>>, <<>>, <<>>, <<3, 16, <<0, 1>>>>, <<>>) >>
-
-OpenMin  == <<1, <<>>, <<>>, <<7>>, <<8, 9>>, <<>>, <<>>>>
-OpenFull == <<1, <<<<67, 80>>>>, <<<<1, 2, 3>>>>, <<10, 11>>, <<>>, <<T1>>, <<1>>>>
-ListOf(n, sig, gt) == <<7, <<<<5, 5>>>>, <<170, 187>>, <<>>, <<T2>>, SubSeq(Entries, 1, n), sig, gt>>
-ListMin == <<7, <<>>, <<>>, <<>>, <<>>, <<>>, <<>>, <<>>>>
-
-Files == <<
-  <<>>,
-  <<Msg(<<221, 67, 68, 0>>, 0, 0, Close(<<>>))>>,
-  <<Msg(<<1>>, 0, 0, OpenFull), Msg(<<2>>, 1, 255, Close(<<<<1, 2, 3, 4>>>>))>>,
-  <<Msg(<<1>>, 0, 0, OpenMin), Msg(<<2>>, 0, 0, ListOf(4, <<>>, <<>>)), Msg(<<3>>, 0, 0, Close(<<>>))>>,
-  <<Msg(<<>>, 0, 0, ListOf(10, <<<<7, 7>>>>, <<T1>>))>>,
-  <<Msg(<<4>>, 0, 0, ListOf(15, <<>>, <<>>))>>,
-  <<Msg(<<5>>, 0, 0, ListOf(16, <<>>, <<>>))>>,
-  <<Msg(<<6>>, 0, 0, ListOf(17, <<>>, <<>>)), Msg(<<7>>, 0, 0, ListMin)>>,
-  <<Msg(<<1, 2, 3, 4, 5, 6, 7, 8, 9, 10, 11, 12, 13, 14, 15>>, 0, 0, Close(<<>>))>>,
-  <<Msg(<<9>>, 0, 0, ListMin)>> >>
-
-DefaultChoice == [extra |-> 0, intfull |-> FALSE, timebare |-> FALSE, where |-> "all"]
+\* the family of abstract files lives in SmlFiles.tla (shared with MC_Link)
 SubstBytes == {0, 1, 127, 128, 255, 98, 114, 119, 82, 66, 101, 118}
 
 VARIABLES phase, fi, c, x
